@@ -141,10 +141,11 @@ func (mw *Middleware) Wrap(next dnsserver.Handler) (wrapped dnsserver.Handler) {
 			return nil
 		}
 
-		loc, ecs, err := mw.location(ctx, req, remoteIP)
-		if err != nil {
-			return mw.processLocationErr(ctx, rw, req, err)
-		}
+		// Don't respond to the errors in the EDNS Client Subnet option until
+		// the profile access settings have been checked below, since the
+		// clients blocked by them must not receive any response.  The location
+		// of the client itself is valid even if there is an error.
+		loc, ecs, locErr := mw.location(ctx, req, remoteIP)
 
 		ri := mw.newRequestInfo(ctx, req, rw.LocalAddr(), raddr)
 		defer mw.pool.Put(ri)
@@ -160,6 +161,10 @@ func (mw *Middleware) Wrap(next dnsserver.Handler) (wrapped dnsserver.Handler) {
 
 		if mw.isBlockedByAccess(ctx, ri, req, raddr) {
 			return nil
+		}
+
+		if locErr != nil {
+			return mw.processLocationErr(ctx, rw, req, locErr)
 		}
 
 		ctx = agd.ContextWithRequestInfo(ctx, ri)
